@@ -631,6 +631,8 @@ func c19Kernel(r *ev.Run) {
 		}
 	}
 	r.Set("kernel_leg_clock_adjtime_calls_observed", nsys)
+	r.Assume("kernel leg: clock_adjtime is logged and answered by strace's syscall injection (the kernel clock is never changed; a canary call a real kernel refuses must succeed first); real time with whole-second durations of 1..2 s; kernel frequency compared within 1 unit of 2^-16 ppm; " +
+		"a restore is a violation when earlier than its duration (strace's own clock, 2 ms slack), when still missing 30 s after it was due, or — only if the child's own sleeps overran by less than 100 ms — when more than 1.5 s late; a 300 us delay is injected at the driver's debug-log call in front of each kernel write")
 	if noinject > 0 {
 		r.Set("kernel_leg", fmt.Sprintf("not run in %d children: the canary call was not intercepted (no strace injection here)", noinject))
 	}
